@@ -273,8 +273,17 @@ func tlStress(s *Stream, rng *Rng, withCancel bool, statusFocus bool) {
 		sc.Detail = fmt.Sprintf("cancel after %d pushes", cancelAfter)
 	}
 	var pushed atomic.Int64
+	var nilPushedA atomic.Bool
 	var mu sync.Mutex
 	var pushes []tlPush
+	// now and then a nil Task is pushed first: the worker's call of Start() on it panics (recovered),
+	// which must affect nothing else; its panic value is a runtime error we do not try to predict
+	if statusFocus && rng.Chance(25) {
+		nilPushedA.Store(tl.PushTask(nil, rng.Intn(L)) == nil)
+		sc.Detail += " nil-task-pushed"
+	}
+	nilPushed := nilPushedA.Load()
+
 	panicVals := map[int]any{}
 	var wg sync.WaitGroup
 	stopPoll := make(chan struct{})
@@ -308,7 +317,7 @@ func tlStress(s *Stream, rng *Rng, withCancel bool, statusFocus bool) {
 			if st.PendingTask < 0 || st.PendingTask > L*(Q+1) {
 				boundViol.Store(int64(st.PendingTask) + 1)
 			}
-			if st.LastPanic != nil {
+			if st.LastPanic != nil && !nilPushedA.Load() {
 				mu.Lock()
 				found := false
 				for _, v := range panicVals {
@@ -390,7 +399,7 @@ func tlStress(s *Stream, rng *Rng, withCancel bool, statusFocus bool) {
 		r.mu.Lock()
 		raised := append([]any{}, r.panicked...)
 		r.mu.Unlock()
-		if len(raised) > 0 && ok {
+		if len(raised) > 0 && ok && !nilPushed {
 			found := false
 			for _, v := range raised {
 				if fmt.Sprint(v) == fmt.Sprint(st.LastPanic) {
@@ -401,7 +410,7 @@ func tlStress(s *Stream, rng *Rng, withCancel bool, statusFocus bool) {
 				s.Violate("last-panic-wrong", fmt.Sprintf("LastPanic=%v after %d panics, not one of the panic values", st.LastPanic, len(raised)), sc)
 			}
 		}
-		if len(raised) == 0 && st.LastPanic != nil {
+		if len(raised) == 0 && st.LastPanic != nil && !nilPushed {
 			s.Violate("last-panic-wrong", fmt.Sprintf("LastPanic=%v although no task panicked", st.LastPanic), sc)
 		}
 	}
